@@ -1164,12 +1164,32 @@ func (d *Data) handleIngest(r *http.Request, uuid dvid.UUID, ctx *datastore.Vers
 	if err := pb.Unmarshal(data, &kvs); err != nil {
 		return err
 	}
+	// Store all key-value pairs of the request in one batch so that a concurrent request writing some of the same
+	// keys cannot be interleaved with it pair by pair.
+	db, err := datastore.GetOrderedKeyValueDB(d)
+	if err != nil {
+		return err
+	}
+	batcher, ok := db.(storage.KeyValueBatcher)
+	if !ok {
+		return fmt.Errorf("keyvalue instance %q requires a batch-enabled store for POST /keyvalues", d.DataName())
+	}
+	batch := batcher.NewBatch(ctx)
 	for _, kv := range kvs.Kvs {
-		err = d.PutData(ctx, kv.Key, kv.Value)
+		serialization, err := dvid.SerializeData(kv.Value, d.Compression(), d.Checksum())
+		if err != nil {
+			return fmt.Errorf("unable to serialize data: %v", err)
+		}
+		tk, err := NewTKey(kv.Key)
 		if err != nil {
 			return err
 		}
-
+		batch.Put(tk, serialization)
+	}
+	if err := batch.Commit(); err != nil {
+		return err
+	}
+	for _, kv := range kvs.Kvs {
 		msginfo := map[string]interface{}{
 			"Action":    "postkv",
 			"Key":       kv.Key,
